@@ -202,7 +202,11 @@ func runC19RateCmd(c c19Rate) error {
 	out := filepath.Join(dir, "out.bin")
 	run := func(extra ...string) error {
 		cmd := attackCmd()
-		args := append([]string{"-rate=" + c.Text, "-targets=" + empty, "-output=" + out}, extra...)
+		var args []string
+		for _, prev := range c.Before {
+			args = append(args, "-rate="+prev)
+		}
+		args = append(append(args, "-rate="+c.Text, "-targets="+empty, "-output="+out), extra...)
 		var rerr error
 		if perr := vh.Try(func() { rerr = cmd.fn(args) }); perr != nil {
 			return fmt.Errorf("attack %v panics: %v", args, perr)
@@ -215,10 +219,10 @@ func runC19RateCmd(c c19Rate) error {
 	err = run()
 	needs := strings.Contains(err.Error(), "max-workers")
 	if c.Unlimited && !needs {
-		return fmt.Errorf("vegeta attack -rate=%s without -max-workers: got %q, want the error that demands -max-workers", c.Text, err)
+		return fmt.Errorf("vegeta attack %v -rate=%s without -max-workers: got %q, want the error that demands -max-workers", c.Before, c.Text, err)
 	}
 	if !c.Unlimited && needs {
-		return fmt.Errorf("vegeta attack -rate=%s demands -max-workers although the rate is limited: %q", c.Text, err)
+		return fmt.Errorf("vegeta attack %v -rate=%s demands -max-workers although the rate is limited: %q", c.Before, c.Text, err)
 	}
 	if c.Unlimited {
 		// with -max-workers the unlimited rate is accepted (and the empty targets file is the error)
@@ -229,15 +233,26 @@ func runC19RateCmd(c c19Rate) error {
 	return nil
 }
 
+// c19GenBefore draws a valid -rate value for an earlier position on the command line; what it means by itself
+// is not examined there, so values with a period of zero (accepted, nowhere documented) can appear too.
+func c19GenBefore(t *rapid.T) string {
+	if rapid.IntRange(0, 3).Draw(t, "zeroperiod") == 0 {
+		return rapid.SampledFrom([]string{"7/0s", "1/0ns", "3/0m", "50/0h0m0s", "1/0.0s"}).Draw(t, "zptext")
+	}
+	for {
+		if p := c19GenRate(t); !p.Reject && !p.MayReject {
+			return p.Text
+		}
+	}
+}
+
 func TestC19Rate(t *testing.T) {
 	vh.Regress(t, "C19")
 	vh.Check(t, 1500, 60000, func(t *rapid.T) {
 		c := c19GenRate(t)
 		if !c.Reject && rapid.IntRange(0, 2).Draw(t, "repeated") == 0 {
 			for i := rapid.IntRange(1, 2).Draw(t, "nbefore"); i > 0; i-- {
-				if p := c19GenRate(t); !p.Reject && !p.MayReject {
-					c.Before = append(c.Before, p.Text)
-				}
+				c.Before = append(c.Before, c19GenBefore(t))
 			}
 		}
 		nt := !c.Reject && (c.Unlimited || c.Per != 1e9 || strings.Contains(c.Text, "/"))
@@ -264,7 +279,10 @@ func TestC19RateCmd(t *testing.T) {
 		if c.Reject {
 			c = c19Rate{Text: "infinity", Unlimited: true}
 		}
-		vh.Case("C19.ratecmd", c.Text, c.Unlimited, map[bool]string{true: "unlimited", false: "finite"}[c.Unlimited])
+		for i := rapid.IntRange(-2, 2).Draw(t, "nbefore"); i > 0; i-- {
+			c.Before = append(c.Before, c19GenBefore(t))
+		}
+		vh.Case("C19.ratecmd", strings.Join(c.Before, " ")+" "+c.Text, c.Unlimited, map[bool]string{true: "unlimited", false: "finite"}[c.Unlimited])
 		vh.Sample("C19.ratecmd", c.Unlimited, c)
 		if err := runC19RateCmd(c); err != nil {
 			vh.Fail(t, "C19", "C19.ratecmd", c, err)
